@@ -586,10 +586,12 @@ func (e *Exec) assertObl(c *Term, msg string) {
 		e.stats.Unknown++
 	}
 	e.obls = append(e.obls, ob)
-	// continue under the assumption that the assertion holds
+	// a concretely false assertion: the violation is recorded and the path goes on
+	// (like a native run), so that later assertions and cover points are still seen
 	if c.IsFalse() {
-		panic(pathEnd{"assert false"})
+		return
 	}
+	// otherwise continue under the assumption that the assertion holds
 	if !e.feasible(c, false) {
 		panic(pathEnd{"assert: nothing left"})
 	}
